@@ -228,65 +228,15 @@ func runC09(c *Ctx) {
 		c.Bad(rCtx, "launch-error-is-Error:none", FirstPos(p, run), "no launch call in the run entry")
 	}
 
-	// ------------------------------------------------------------------ (4)
-	rExit := c.Rule("exitcode-provenance", "every call of the exit-code setter passes command.ExitCode() of this process read after command.Wait(), or a non-zero constant from the status-change hook for Skipped/Error; nobody writes another process's exit code")
-	var exitSetters []*ssa.Function
-	for _, f := range p.FuncsWith(StoreTo("w", s.FExitCode)) {
-		if f != newState {
-			exitSetters = appendUniq(exitSetters, f)
-		}
-	}
-	nE := 0
-	for _, f := range p.FuncsOfPkg("app") {
-		for _, in := range DirectSites(f, CallOfFn("setExitCode", exitSetters...)) {
-			call, ok := in.(*ssa.Call)
-			if !ok {
-				continue
-			}
-			nE++
-			c.Touch(f)
-			args := ArgsOf(&call.Call)
-			if len(args) != 1 {
-				continue
-			}
-			if k, isConst := ConstInt(args[0]); isConst {
-				// constant: only in a status-change hook (a function reached only from the status setters)
-				inHook := p.onlyReachedFrom(f, setters, 0) && !isTerminal(f)
-				okc := inHook && k != 0
-				// and on a Skipped/Error case
-				if okc {
-					okc = false
-					for _, g := range GuardsOf(call) {
-						if cmp, okg := g.Cmp(); okg && cmp.Op.String() == "==" {
-							for _, v := range []ssa.Value{cmp.X, cmp.Y} {
-								if sv, oks := ConstString(v); oks && (sv == skipped || sv == errorSt) {
-									okc = true
-								}
-							}
-						}
-					}
-				}
-				c.Check(okc, rExit, "const:"+p.FuncKey(f), p.InstrPos(call), "non-zero constant for a never-run state", "a constant exit code is stored outside the Skipped/Error status-change hook: the reported exit code is not that of the process's last command (e.g. a waiting dependent overwrites the code of its dependency)")
-				continue
-			}
-			isCmdExit := false
-			if vc, isCall := stripConv(args[0]).(*ssa.Call); isCall {
-				if sameFunc(CalleeObj(&vc.Call), s.MExitCode) && PathOf(ReceiverOf(&vc.Call)).LastField() == s.FCommand {
-					isCmdExit = true
-				}
-			}
-			r := MustPrecede(f, waitDeep, func(x ssa.Instruction) bool { return x == in }, nil)
-			c.Check(isCmdExit && r.OK, rExit, "value:"+p.FuncKey(f), p.InstrPos(call), "command.ExitCode() after Wait()", "the exit code stored is not command.ExitCode() read after command.Wait()")
-		}
-	}
-	if nE < 2 {
-		c.Bad(rExit, "floor:setter-sites", "", "expected at least two call sites of the exit-code setter")
-	}
+	s.checkExitCodeProvenance(c, "exitcode-provenance")
 
 	// ------------------------------------------------------------------ (5), (6)
 	s.checkNonzeroCodeForNonRun(c, "nonzero-code-for-nonrun")
 	s.checkLatchesReleased(c, "no-stuck-transient")
 	s.checkHealthReset(c, "health-reset")
+	s.checkStatusStoreCallsHook(c, "status-store-calls-hook")
+	s.checkDaemonRelease(c, "daemon-released-after-configured-stop")
+	s.checkStartRefusedWhenRegistered(c, "one-supervisor-per-state-record")
 }
 
 // stringConstsOf resolves a string value to the constants it may hold
@@ -403,4 +353,162 @@ func shallowSources(v ssa.Value) []ssa.Value {
 	}
 	walk(v)
 	return out
+}
+
+// checkExitCodeProvenance (C09, C01, C05): who may write the exit code a
+// dependent's gate reads.
+func (s *Sel) checkExitCodeProvenance(c *Ctx, ruleID string) {
+	p := c.P
+	st := p.ConstGroup("types", "ProcessState")
+	errorSt, skipped := st["ProcessStateError"], st["ProcessStateSkipped"]
+	newState := p.Func("types", "NewProcessState")
+	var setters []*ssa.Function
+	for _, f := range s.StatusSetter {
+		if f != newState {
+			setters = append(setters, f)
+		}
+	}
+	isTerminal := func(f *ssa.Function) bool {
+		for _, t := range s.Terminals {
+			if t == f {
+				return true
+			}
+		}
+		return false
+	}
+	waitDeep := p.Deep(MethodOnField("command.Wait", s.FCommand, s.MWait))
+	rExit := c.Rule(ruleID, "every call of the exit-code setter passes command.ExitCode() of this process read after command.Wait(), or a non-zero constant from the status-change hook for Skipped/Error; nobody writes another process's exit code")
+	var exitSetters []*ssa.Function
+	for _, f := range p.FuncsWith(StoreTo("w", s.FExitCode)) {
+		if f != newState {
+			exitSetters = appendUniq(exitSetters, f)
+		}
+	}
+	nE := 0
+	for _, f := range p.FuncsOfPkg("app") {
+		for _, in := range DirectSites(f, CallOfFn("setExitCode", exitSetters...)) {
+			call, ok := in.(*ssa.Call)
+			if !ok {
+				continue
+			}
+			nE++
+			c.Touch(f)
+			args := ArgsOf(&call.Call)
+			if len(args) != 1 {
+				continue
+			}
+			if k, isConst := ConstInt(args[0]); isConst {
+				// constant: only in a status-change hook (a function reached only from the status setters)
+				inHook := p.onlyReachedFrom(f, setters, 0) && !isTerminal(f)
+				okc := inHook && k != 0
+				// and on a Skipped/Error case
+				if okc {
+					okc = false
+					for _, g := range GuardsOf(call) {
+						if cmp, okg := g.Cmp(); okg && cmp.Op.String() == "==" {
+							for _, v := range []ssa.Value{cmp.X, cmp.Y} {
+								if sv, oks := ConstString(v); oks && (sv == skipped || sv == errorSt) {
+									okc = true
+								}
+							}
+						}
+					}
+				}
+				c.Check(okc, rExit, "const:"+p.FuncKey(f), p.InstrPos(call), "non-zero constant for a never-run state", "a constant exit code is stored outside the Skipped/Error status-change hook: the reported exit code is not that of the process's last command (e.g. a waiting dependent overwrites the code of its dependency)")
+				continue
+			}
+			isCmdExit := false
+			if vc, isCall := stripConv(args[0]).(*ssa.Call); isCall {
+				if sameFunc(CalleeObj(&vc.Call), s.MExitCode) && PathOf(ReceiverOf(&vc.Call)).LastField() == s.FCommand {
+					isCmdExit = true
+				}
+			}
+			r := MustPrecede(f, waitDeep, func(x ssa.Instruction) bool { return x == in }, nil)
+			c.Check(isCmdExit && r.OK, rExit, "value:"+p.FuncKey(f), p.InstrPos(call), "command.ExitCode() after Wait()", "the exit code stored is not command.ExitCode() read after command.Wait()")
+		}
+	}
+	if nE < 2 {
+		c.Bad(rExit, "floor:setter-sites", "", "expected at least two call sites of the exit-code setter")
+	}
+
+}
+
+// checkDaemonRelease (C09, C12): the daemon wait is released by the configured
+// stop after, and only after, the shutdown command has finished - on every path.
+func (s *Sel) checkDaemonRelease(c *Ctx, ruleID string) {
+	p := c.P
+	rule := c.Rule(ruleID, "in the function that runs the configured shutdown command the daemon wait is released (send on procStateChan) on every path to return, and no release is reachable before the shutdown command has been run (a daemon must neither stay Terminating forever when its stop command fails nor be reported done while the stop command is still running)")
+	release := p.Deep(Site{Name: "send procStateChan", Instr: func(in ssa.Instruction) bool {
+		sd, ok := in.(*ssa.Send)
+		return ok && PathOf(sd.Chan).LastField() == s.FStateChan
+	}})
+	n := 0
+	for _, f := range p.FuncsOfPkg("app") {
+		if !s.IsProcessMethod(f) {
+			continue
+		}
+		var runs []ssa.Instruction
+		AllInstrs(f, func(in ssa.Instruction) {
+			call, ok := in.(*ssa.Call)
+			if !ok {
+				return
+			}
+			o := CalleeObj(&call.Call)
+			if o == nil || o.Name() != "Run" {
+				return
+			}
+			bc, isB := stripConv(ReceiverOf(&call.Call)).(*ssa.Call)
+			if !isB {
+				return
+			}
+			for _, a := range bc.Call.Args {
+				if PathOf(a).LastField() == s.FShutDownCommand {
+					runs = append(runs, in)
+				}
+			}
+		})
+		if len(runs) == 0 {
+			continue
+		}
+		n++
+		c.Touch(f)
+		var notifyFns []*ssa.Function
+		for _, g := range p.FuncsOfPkg("app") {
+			if s.IsProcessMethod(g) && len(DirectSites(g, release.site)) > 0 {
+				notifyFns = append(notifyFns, g)
+			}
+		}
+		notify := p.Deep(Or("notify", release.site, CallOfFn("notifyDaemonStopped", notifyFns...)))
+		c.Check(notify.Always(f), rule, p.FuncKey(f)+":always", FirstPos(p, f), "released on every path", "a path of the configured stop (e.g. a failing shutdown command) does not release the daemon wait: the daemon stays Terminating for ever and Run() never returns")
+		vis := Reach(Entry(f), func(in ssa.Instruction) bool { return isOneOf(in, runs) }, nil)
+		early := false
+		for in := range vis {
+			if isOneOf(in, runs) {
+				continue
+			}
+			if _, isRD := in.(*ssa.RunDefers); isRD {
+				continue
+			}
+			if release.MayAt(in) {
+				early = true
+			}
+		}
+		c.Check(!early, rule, p.FuncKey(f)+":not-before-command", FirstPos(p, f), "no release before the shutdown command ran", "the daemon wait can be released before the shutdown command has run")
+		// callers: the stop core must not release before calling this function
+		for _, cr := range p.Callers(f) {
+			vis := Reach(Entry(cr.Caller), func(in ssa.Instruction) bool { return in == cr.Instr }, nil)
+			bad := false
+			for in := range vis {
+				if in != cr.Instr && release.MayAt(in) {
+					if _, isRD := in.(*ssa.RunDefers); !isRD {
+						bad = true
+					}
+				}
+			}
+			c.Check(!bad, rule, p.FuncKey(cr.Caller)+":not-before-command", p.InstrPos(cr.Instr), "the caller does not release the daemon wait before the configured stop", "the daemon wait is released before the configured shutdown command is run: the daemon is reported done (and the processes it depends on are stopped) while it is still alive")
+		}
+	}
+	if n == 0 {
+		c.Bad(rule, "none", "", "no function runs the configured shutdown command")
+	}
 }
